@@ -157,7 +157,7 @@ def gen_history(rng, exe, heap, nops, stats):
         allocd = [i for i, c in enumerate(cells) if c[2] != "-"]
         anyref = lambda: rng.choice(allocd) if allocd and not rng.chance(0.15) else 0
         kindref = lambda k: rng.choice(by[k]) if by.get(k) and not rng.chance(0.15) else 0
-        what = rng.weighted([("alloc", 50), ("store", 25), ("collect", 12), ("omfalos", 3), ("wants", 2), ("sweep", 0)])
+        what = rng.weighted([("alloc", 50), ("store", 25), ("collect", 10), ("omfalos", 3), ("run", 10), ("wants", 1), ("sweep", 0)])
         pre = st
         roots = None
         if what == "alloc":
@@ -193,7 +193,7 @@ def gen_history(rng, exe, heap, nops, stats):
                 continue
             op = rng.choice(cands)
             stats[op.split()[0]] = stats.get(op.split()[0], 0) + 1
-        elif what in ("collect", "omfalos"):
+        elif what in ("collect", "omfalos", "run"):
             p = rng.choice([0.0, 0.1, 0.3, 0.6, 1.0])
             slots, roots = [], []
             for a in allocd:
@@ -208,10 +208,10 @@ def gen_history(rng, exe, heap, nops, stats):
             # shuffle
             for i in range(len(slots) - 1, 0, -1):
                 j = rng.below(i + 1); slots[i], slots[j] = slots[j], slots[i]
-            if what == "collect":
+            if what in ("collect", "run"):
                 gp = kindref("V") if rng.chance(0.7) else anyref()
                 if gp: roots.append(gp)
-                op = "collect %d %s" % (gp, " ".join(slots))
+                op = "%s %d %s" % (what, gp, " ".join(slots))
             else:
                 op = "omfalos " + " ".join(slots)
             op = op.rstrip()
@@ -227,6 +227,16 @@ def gen_history(rng, exe, heap, nops, stats):
         if st2 is None:
             sfail.append((len(ops) - 1, "unparsable state: " + l[:200])); break
         bad = inv_violations(st2)
+        if what == "run" and not bad:
+            npre = len([1 for c in pre["cells"] if c[2] != "-"])
+            unchanged = (st2["cells"] == pre["cells"] and st2["free"] == pre["free"] and st2["w"] == pre["w"])
+            if unchanged:
+                roots = None
+                if not (5 * npre < 4 * len(pre["cells"])):
+                    bad.append("gc_run did not collect although %d of %d cells are allocated (>= 80%%): bounded live data can exhaust the heap" % (npre, len(pre["cells"])))
+                stats["run_skipped"] = stats.get("run_skipped", 0) + 1
+            else:
+                stats["run_collected"] = stats.get("run_collected", 0) + 1
         if roots is not None and not bad:
             want = reach(pre, roots)
             got = {i for i, c in enumerate(st2["cells"]) if c[2] != "-"}
@@ -268,9 +278,13 @@ def s_check_ops(exe, ops):
             return "op %d: unparsable" % i
         bad = inv_violations(st)
         w = op.split()
-        if w[0] in ("collect", "omfalos") and pre is not None:
+        if w[0] == "run" and pre is not None and st["cells"] == pre["cells"] and st["free"] == pre["free"] and st["w"] == pre["w"]:
+            npre = len([1 for c in pre["cells"] if c[2] != "-"])
+            if not (5 * npre < 4 * len(pre["cells"])):
+                bad.append("gc_run did not collect at >= 80% occupancy")
+        elif w[0] in ("collect", "omfalos", "run") and pre is not None:
             roots = [int(s[2:]) for s in w[1:] if s.startswith("a:")]
-            if w[0] == "collect" and int(w[1]) > 0:
+            if w[0] in ("collect", "run") and int(w[1]) > 0:
                 roots.append(int(w[1]))
             want = reach(pre, roots)
             got = {j for j, c in enumerate(st["cells"]) if c[2] != "-"}
